@@ -52,6 +52,26 @@ else:
 
     rv.modules.module.int = _vf_int
 
+    class _VfStrMeta(type):
+        def __instancecheck__(cls, obj):
+            return isinstance(obj, str)
+
+        def __subclasscheck__(cls, sub):
+            return issubclass(sub, str)
+
+    class _vf_str(str, metaclass=_VfStrMeta):
+        # str(exc) where exc carries symbolic ints (WarnOnlyRange.validate logs str(e)): the C-level
+        # BaseException.__str__ rejects CrossHair's lazy string; the text only feeds a log line.
+        # isinstance(x, str) keeps its meaning through the metaclass.
+        def __new__(cls, x="", *a, **kw):
+            if isinstance(x, BaseException):
+                return "<exception text elided>"
+            return str(x, *a, **kw)
+
+    import rv.controller
+
+    rv.controller.str = _vf_str
+
 
 def save(obj):
     """real writer -> file positioned at 0"""
